@@ -349,7 +349,11 @@ type Server struct {
 
 	concurrency atomic.Uint32
 	open        atomic.Int32
-	stop        atomic.Int32
+	// serveLoops is the number of running Serve accept loops. Each of them
+	// holds one unit of open (see Serve), which GetOpenConnectionsCount
+	// subtracts again.
+	serveLoops atomic.Int32
+	stop       atomic.Int32
 
 	rejectedRequestsCount atomic.Uint32
 
@@ -2004,7 +2008,11 @@ func (s *Server) Serve(ln net.Listener) error {
 	// a connection Shutdown is called which reads open as 0 because it isn't
 	// incremented yet.
 	s.open.Add(1)
-	defer s.open.Add(-1)
+	s.serveLoops.Add(1)
+	defer func() {
+		s.serveLoops.Add(-1)
+		s.open.Add(-1)
+	}()
 
 	for {
 		c, err := acceptConn(s, ln, &lastPerIPErrorTime)
@@ -2281,15 +2289,12 @@ func (s *Server) GetCurrentConcurrency() uint32 {
 //
 // This function is intended be used by monitoring systems.
 func (s *Server) GetOpenConnectionsCount() int32 {
-	if s.stop.Load() == 0 {
-		// Decrement by one to avoid reporting the extra open value that gets
-		// counted while the server is listening.
-		return s.open.Load() - 1
-	}
-	// This is not perfect, because s.stop could have changed to zero
-	// before we load the value of s.open. However, in the common case
-	// this avoids underreporting open connections by 1 during server shutdown.
-	return s.open.Load()
+	// Every running Serve loop counts itself in s.open while it is listening;
+	// leave those units out. There may be none (ServeConn only, before Serve,
+	// after the listener was closed or during shutdown) or several (Serve
+	// called for more than one listener).
+	loops := s.serveLoops.Load()
+	return s.open.Load() - loops
 }
 
 // GetRejectedConnectionsCount returns a number of rejected connections.
